@@ -18,7 +18,6 @@ NA = {
     "C20": "AES correctness/invertibility is a SAT-hard equivalence over external cipher crates; only an eight-arm dispatch lives in the repository",
 }
 NA["C05"] = "validity, low-S and RFC 6979 equality of signatures and ECDH symmetry live in k256/ecdsa/rfc6979 (scalar multiplication, HMAC-DRBG): not encodable within reach; no partial check was built"
-NA["C08"] = "child-key arithmetic, xpub point addition and Base58Check strings are EC / big-number / string machinery outside both engines; the HMAC-argument layout alone was not built into a check"
 DEFAULT_NA = "no solver-based check of this property returns verdicts in this framework yet (see DESIGN.md §5); not claimed"
 
 props = [json.loads(l) for l in open("/verif/properties.jsonl")]
